@@ -37,7 +37,7 @@ def specs(tier):
                                     style = ("def", "lambda", "adef")[idx % 3] if is_async else ("def", "lambda")[idx % 2]
                                     err = ("default", "cls", "fac", "inst")[(idx // 2) % 4]
                                     out.append({"kind": kind, "is_async": is_async, "dbc": dbc, "levels": levels,
-                                                "style": style, "err": err, "foreign": foreign})
+                                                "style": style, "err": err, "foreign": foreign, "err_base": idx % 5 == 3})
     return out
 
 
@@ -48,7 +48,7 @@ def features(spec, shape):
         "post": "/".join(str(lv["post"]) for lv in spec["levels"]),
         "snap": "/".join(str(lv["snap"]) for lv in spec["levels"]),
         "inv": "/".join(str(lv["inv"]) for lv in spec["levels"]),
-        "style": spec["style"], "err": spec["err"], "shape": shape, "foreign": spec.get("foreign"),
+        "style": spec["style"], "err": spec["err"], "shape": shape, "foreign": spec.get("foreign"), "err_base": spec.get("err_base", False),
     }
 
 
@@ -99,6 +99,13 @@ def check_spec(spec, acc, shapes=fam.CALL_SHAPES):
                     sym = "precondition_error_although_pre_holds"
                 elif any(ev[0] == "pre" and ev[2] is not True for ev in log):
                     sym = "condition_saw_other_object"
+                if sym is None and outcome[0] == "exc":
+                    # the rejected call made twice in ONE context: the second call is gated exactly like the first
+                    (l1, o1), (l2, o2) = prog.call_twice(truth, "ret_obj", "none", shape)
+                    acc.bump("repeated_in_same_context")
+                    if (l1, o1) != (log, outcome) or (l2, o2) != (log, outcome):
+                        sym = "repeated_call_differs"
+                        log, outcome = (l2, o2) if (l2, o2) != (log, outcome) else (l1, o1)
                 if sym:
                     acc.violation(core.Violation(
                         PROP, sym, features(spec, shape),
